@@ -408,17 +408,17 @@ theorem G_eq (a b : G) (h1 : a.enabled = b.enabled) (h2 : a.level = b.level) (h3
     (h8 : a.idxSec = b.idxSec) (h9 : a.cols = b.cols) : a = b := by
   cases a; cases b; simp_all
 
-theorem swInv_start : SwInv (init, newDoc) := by
-  simp [SwInv, init, newDoc, initLevel, initEnabled, initDisBegin, initDisEnd]
+theorem swInv_start : SwInv (init, newDocOf init) := by
+  simp [SwInv, init, newDoc, newDocOf, initLevel, initEnabled, initDisBegin, initDisEnd]
 
 /-- switches: balanced by every document without an unrepaired `any` argument -/
 theorem runDoc_switches (v : Variant) (d : List Ev) (hok : ∀ e ∈ d, okSw v e = true) :
     (runDoc v init d).1.enabled = init.enabled ∧ (runDoc v init d).1.level = init.level ∧
     (runDoc v init d).1.disBegin = init.disBegin ∧ (runDoc v init d).1.disEnd = init.disEnd := by
   have hok' : ∀ e ∈ annot d, okSw v e.1 = true := fun e he => hok _ (annot_mem d e he)
-  have hsw := run_inv v SwInv (okSw v) (fun e s he hp => step_sw v e s he hp) (annot d) (init, newDoc) hok' swInv_start
+  have hsw := run_inv v SwInv (okSw v) (fun e s he hp => step_sw v e s he hp) (annot d) (init, newDocOf init) hok' swInv_start
   obtain ⟨_, _, _, f4, f5, f6, f7, _⟩ :=
-    finish_frame v (run v (init, newDoc) (annot d)).1.2.boxes (run v (init, newDoc) (annot d)).1
+    finish_frame v (run v (init, newDocOf init) (annot d)).1.2.boxes (run v (init, newDocOf init) (annot d)).1
   obtain ⟨s1, s2, s3, s4⟩ := hsw
   have hi : init.enabled = true := rfl
   have hl : init.level = 0 := rfl
@@ -435,31 +435,31 @@ theorem runDoc_switches (v : Variant) (d : List Ev) (hok : ∀ e ∈ d, okSw v e
 theorem runDoc_trackers (v : Variant) (ht : v.trkDoc = true) (g : G) (d : List Ev) :
     (runDoc v g d).1.inEnv = g.inEnv ∧ (runDoc v g d).1.depth = g.depth := by
   obtain ⟨_, _, _, _, _, _, _, f8⟩ :=
-    finish_frame v (run v (g, newDoc) (annot d)).1.2.boxes (run v (g, newDoc) (annot d)).1
+    finish_frame v (run v (g, newDocOf g) (annot d)).1.2.boxes (run v (g, newDocOf g) (annot d)).1
   constructor
   · simp only [runDoc]; rw [(f8 ht).1]
     exact run_inv v (fun s => s.1.inEnv = g.inEnv) (fun _ => true)
-      (fun e s _ hp => by rw [(step_env v e s ht).1]; exact hp) (annot d) (g, newDoc) (fun _ _ => rfl) rfl
+      (fun e s _ hp => by rw [(step_env v e s ht).1]; exact hp) (annot d) (g, newDocOf g) (fun _ _ => rfl) rfl
   · simp only [runDoc]; rw [(f8 ht).2]
     exact run_inv v (fun s => s.1.depth = g.depth) (fun _ => true)
-      (fun e s _ hp => by rw [(step_env v e s ht).2]; exact hp) (annot d) (g, newDoc) (fun _ _ => rfl) rfl
+      (fun e s _ hp => by rw [(step_env v e s ht).2]; exact hp) (annot d) (g, newDocOf g) (fun _ _ => rfl) rfl
 
 /-- registers, index level, column types: untouched by the events that are `okEv` -/
 theorem runDoc_cfg (v : Variant) (g : G) (d : List Ev) (hok : ∀ e ∈ d, okEv v e = true) :
     (runDoc v g d).1.regs = g.regs ∧ (runDoc v g d).1.idxSec = g.idxSec ∧ (runDoc v g d).1.cols = g.cols := by
   have hok' : ∀ e ∈ annot d, okEv v e.1 = true := fun e he => hok _ (annot_mem d e he)
   obtain ⟨f1, f2, f3, _⟩ :=
-    finish_frame v (run v (g, newDoc) (annot d)).1.2.boxes (run v (g, newDoc) (annot d)).1
+    finish_frame v (run v (g, newDocOf g) (annot d)).1.2.boxes (run v (g, newDocOf g) (annot d)).1
   refine ⟨?_, ?_, ?_⟩
   · simp only [runDoc]; rw [f1]
     exact run_inv v (fun s => s.1.regs = g.regs) (okEv v)
-      (fun e s he hp => by rw [step_regs v e s he]; exact hp) (annot d) (g, newDoc) hok' rfl
+      (fun e s he hp => by rw [step_regs v e s he]; exact hp) (annot d) (g, newDocOf g) hok' rfl
   · simp only [runDoc]; rw [f2]
     exact run_inv v (fun s => s.1.idxSec = g.idxSec) (okEv v)
-      (fun e s he hp => by rw [step_idx v e s he]; exact hp) (annot d) (g, newDoc) hok' rfl
+      (fun e s he hp => by rw [step_idx v e s he]; exact hp) (annot d) (g, newDocOf g) hok' rfl
   · simp only [runDoc]; rw [f3]
     exact run_inv v (fun s => s.1.cols = g.cols) (okEv v)
-      (fun e s he hp => by rw [step_cols v e s he]; exact hp) (annot d) (g, newDoc) hok' rfl
+      (fun e s he hp => by rw [step_cols v e s he]; exact hp) (annot d) (g, newDocOf g) hok' rfl
 
 /-- **A clean document leaves the class-level state exactly as it found it.** -/
 theorem runDoc_restores (v : Variant) (d : List Ev) (h : Clean v d = true) : (runDoc v init d).1 = init := by
